@@ -28,7 +28,8 @@ generations of children.  One action per critical section / blocking operation:
 | env     | `stopCall`, `cancelCtx` | a `Stop()` caller closes the stop channel; the parent context ends                |
 |         | `childRun g c`    | the goroutine of child `c` of generation `g` calls the child's `Run`                    |
 |         | `childExit g c o` | that `Run` returns (`o`: nil / cancellation error / real error) — at any time: children are arbitrary; `childExitDropped`: a real error that did not fit into `serverErrors` |
-|         | `childStopRet c`  | a pending `Stop()` of child `c` returns; a *blocking* child (`lifecycle.StartStop` style) only once its `Run` has been invoked and has returned |
+|         | `childStopRet c`  | a pending `Stop()` of child `c` returns (they run in parallel); a *blocking* child (`lifecycle.StartStop` style) only once its `Run` has been invoked and has returned |
+|         | `reloadCall`, `reloadAck st`, `retAck r st`, `stopDone`, `observe st`, `childStopInv c` | what callers see: a `Reload()` is called (waits for `reloadMu`) / has returned and `GetState()` read `st`; `Run()` has returned `r` with state `st`; a `Stop()` caller is released; a state query; a child's `Stop()` is entered |
 
 A generation's context is derived from the context `boot` was given: `runCtx` in `Run`, the field
 `r.ctx` in `reloadWithRestart` (`none` = the field was never set: `WithCancel(nil)` panics).
@@ -46,6 +47,10 @@ def allowed : Fsm → Fsm → Bool
   | .error, .error | .error, .stopping | .error, .stopped => true
   | _, _ => false
 
+/-- what `Run()` returned: nil, `ErrRunnableFailed` naming child `c`, any other error -/
+inductive RRet where | nil | failed (c : Nat) | other
+  deriving DecidableEq, Repr
+
 inductive ChildSt where | launched | running | exited (o : Out)
   deriving DecidableEq, Repr
 
@@ -59,7 +64,7 @@ inductive RunPc where
   | idle | entered | booted | select | afterSelect | toStop | stopping (pending : List Nat) | stopped
   | failToStop (c : Nat)                             -- the serverErrors arm: setStateError() done, before stopAllRunnables
   | failStopping (pending : List Nat) (c : Nat)      -- ... its stopAllRunnables, then return
-  | returned (r : Ret)
+  | returned (r : RRet)
   deriving DecidableEq, Repr
 
 inductive RlPc where
@@ -84,7 +89,10 @@ structure St where
   run       : RunPc := .idle
   rl        : RlPc := .idle
   reloads   : Nat := 0                               -- completed Reload() calls
-  blocking  : Bool := true                           -- children are lifecycle.StartStop style
+  pendingRl : Nat := 0                               -- Reload() callers waiting for `reloadMu`
+  acked     : Nat := 0                               -- Reload() returns seen by their callers
+  retAcked  : Bool := false                          -- the return of Run() was seen by its caller
+  blockers  : List Nat := []                         -- children whose Stop() is lifecycle.StartStop style
   nilBoot   : Bool := false                          -- ghost: boot was given a nil context
   deriving DecidableEq, Repr
 
@@ -93,7 +101,9 @@ inductive Act where
   | runToStopping | runStopBegin | runStopEnd | runFinish
   | rlEnter | rlCallback (res : CbRes) | rlDecide | rlStopBegin | rlStopEnd | rlSetConfig | rlBoot
   | rlChildReload | rlFinish
-  | stopCall | cancelCtx
+  | stopCall | cancelCtx | stopDone
+  | reloadCall | reloadAck (st : Fsm) | retAck (r : RRet) (st : Fsm) | observe (st : Fsm)
+  | childStopInv (c : Nat)
   | childRun (g c : Nat) | childExit (g c : Nat) (o : Out) | childExitDropped (g c : Nat) | childStopRet (c : Nat)
   deriving DecidableEq, Repr
 
@@ -131,18 +141,18 @@ def step (s : St) : Act → Option St
     if s.run != .idle || s.mu.isSome then none else
     match tr s .booting with
     | some f => some { s with rctx := true, fsm := f, run := .entered, runCancelled := s.parentDone }
-    | none => some { s with rctx := true, run := .returned (.failed 0), runCancelled := true }
+    | none => some { s with rctx := true, run := .returned .other, runCancelled := true }
   | .runBoot res =>
     if s.run != .entered || s.mu.isSome then none else
     match s.cfg, res with
     | some cfg, _ => some { boot s true cfg with run := .booted }
     | none, .ok cfg => some { boot { s with cfg := some cfg } true cfg with run := .booted }
-    | none, _ => some { s with fsm := .error, run := .returned (.failed 0), runCancelled := true }
+    | none, _ => some { s with fsm := .error, run := .returned .other, runCancelled := true }
   | .runToRunning =>
     if s.run != .booted then none else
     match tr s .running with
     | some f => some { s with fsm := f, run := .select }
-    | none => some { s with fsm := .error, run := .returned (.failed 0), runCancelled := true }
+    | none => some { s with fsm := .error, run := .returned .other, runCancelled := true }
   | .runSelCtx => if s.run == .select && s.runCancelled then some { s with run := .afterSelect } else none
   | .runSelStop => if s.run == .select && s.stopReq then some { s with run := .afterSelect, runCancelled := true } else none
   | .runSelErr =>
@@ -168,13 +178,13 @@ def step (s : St) : Act → Option St
     if s.run != .stopped then none else
     match tr s .stopped with
     | some f => some { s with fsm := f, run := .returned .nil, runCancelled := true }
-    | none => some { s with fsm := .error, run := .returned (.failed 0), runCancelled := true }
+    | none => some { s with fsm := .error, run := .returned .other, runCancelled := true }
   -- ---------------- Reload ----------------
   | .rlEnter =>
-    if s.rl != .idle then none else
+    if s.rl != .idle || s.pendingRl == 0 then none else
     match tr s .reloading with
-    | some f => some { s with fsm := f, rl := .entered }
-    | none => some { s with fsm := .error, reloads := s.reloads + 1 }
+    | some f => some { s with fsm := f, rl := .entered, pendingRl := s.pendingRl - 1 }
+    | none => some { s with fsm := .error, reloads := s.reloads + 1, pendingRl := s.pendingRl - 1 }
   | .rlCallback res =>
     if s.rl != .entered then none else
     match res with
@@ -212,6 +222,21 @@ def step (s : St) : Act → Option St
     | none => some { s with fsm := .error, rl := .idle, reloads := s.reloads + 1 }
   -- ---------------- environment ----------------
   | .stopCall => some { s with stopReq := true }
+  | .stopDone => (match s.run with | .returned _ => some s | _ => none)      -- a Stop() caller is released by `done()`
+  | .reloadCall => some { s with pendingRl := s.pendingRl + 1 }
+  | .reloadAck st => if s.acked < s.reloads && s.fsm == st then some { s with acked := s.acked + 1 } else none
+  | .retAck r st =>
+    if s.retAcked then none else
+    (match s.run with
+     | .returned r' => if r' == r && s.fsm == st then some { s with retAcked := true } else none
+     | _ => none)
+  | .observe st => if s.fsm == st then some s else none
+  | .childStopInv c =>
+    (match s.run, s.rl with
+     | .stopping p, _ => if p.contains c then some s else none
+     | .failStopping p _, _ => if p.contains c then some s else none
+     | _, .stopping _ p => if p.contains c then some s else none
+     | _, _ => none)
   | .cancelCtx => some { s with parentDone := true, runCancelled := s.runCancelled || s.rctx }
   | .childRun g c =>
     match childSt s g c with
@@ -227,17 +252,17 @@ def step (s : St) : Act → Option St
     match childSt s g c with
     | some .running => some (setChild s g c (.exited .realErr))
     | _ => none
-  | .childStopRet c =>
-    let ok := !s.blocking || ranAndReturned s c
+  | .childStopRet c =>       -- the Stop() goroutines run in parallel: any pending one may return
+    let ok := !s.blockers.contains c || ranAndReturned s c
     match s.run, s.rl with
-    | .stopping (c' :: rest), _ => if c' == c && ok then some { s with run := .stopping rest } else none
-    | .failStopping (c' :: rest) e, _ => if c' == c && ok then some { s with run := .failStopping rest e } else none
-    | _, .stopping cfg (c' :: rest) => if c' == c && ok then some { s with rl := .stopping cfg rest } else none
+    | .stopping p, _ => if p.contains c && ok then some { s with run := .stopping (p.erase c) } else none
+    | .failStopping p e, _ => if p.contains c && ok then some { s with run := .failStopping (p.erase c) e } else none
+    | _, .stopping cfg p => if p.contains c && ok then some { s with rl := .stopping cfg (p.erase c) } else none
     | _, _ => none
 
 def lts : Lts St Act := ⟨step⟩
 
-def init (blocking : Bool) : St := { blocking := blocking }
+def init (blockers : List Nat) : St := { blockers := blockers }
 
 /-- a generation's context is done: its own cancel was called, or the run context it derives from is done -/
 def Gen.done (s : St) (g : Gen) : Bool := g.cancelled || (g.fromRun && s.runCancelled)
